@@ -233,6 +233,13 @@ func judge(c Case, o *vh.Obs) {
 				env.Head.Meta = cbc.Meta{}
 			}
 			env.Head.Meta[cbc.Key(a.Arg)] = a.Val
+		case "extend-notes":
+			// the notes keep their text and gain some before or after it
+			if a.Arg == "before" {
+				env.Head.Notes = a.Val + env.Head.Notes
+			} else {
+				env.Head.Notes += a.Val
+			}
 		case "set-notes":
 			env.Head.Notes = a.Val
 		case "alter-uuid":
@@ -517,7 +524,7 @@ var metaKeys = []string{"m1", "m2"}
 
 func genAction(t *rapid.T, label string, phase string) Action {
 	pre := []string{"add-link", "add-tag", "set-meta", "set-notes", "add-tag", "set-meta"}
-	post := []string{"add-stamp", "add-link", "add-tag", "set-meta", "set-notes", "alter-uuid", "alter-digest", "remove-tag", "remove-stamp", "remove-link", "retitle-link", "retitle-link", "remove-meta", "set-meta",
+	post := []string{"add-stamp", "add-link", "add-tag", "set-meta", "set-notes", "alter-uuid", "alter-digest", "remove-tag", "remove-stamp", "remove-link", "retitle-link", "retitle-link", "remove-meta", "set-meta", "extend-notes", "extend-notes",
 		"edit-doc", "edit-doc-recalc", "edit-doc-recalc", "reparse", "sign", "unsign", "add-stamp", "add-link", "set-meta"}
 	kinds := pre
 	if phase == "post" {
@@ -544,6 +551,9 @@ func genAction(t *rapid.T, label string, phase string) Action {
 	case "set-meta":
 		a.Arg = rapid.SampledFrom(metaKeys).Draw(t, label+"_mk")
 		a.Val = rapid.SampledFrom([]string{"x", "y", ""}).Draw(t, label+"_mv")
+	case "extend-notes":
+		a.Arg = rapid.SampledFrom([]string{"before", "after"}).Draw(t, label+"_where")
+		a.Val = rapid.SampledFrom([]string{" and more", "x", " "}).Draw(t, label+"_xv")
 	case "set-notes":
 		a.Val = rapid.SampledFrom([]string{"n1", "n2", ""}).Draw(t, label+"_nv")
 	case "alter-uuid":
@@ -615,7 +625,7 @@ func enumTamper(yield func(Case) bool) {
 func init() {
 	vh.OnExit(goblexec.Stop)
 	vh.Describe(
-		"Histories over every signable example invoice: 0-3 header decorations (links, tags, meta, notes), a signature by one of three keys, then 0-5 post-signing steps drawn from: add stamp / link (with or without title and MIME type) / tag (also the blank tag) / meta (also the empty value) / notes, change the title, description or MIME type of a link, remove a meta entry, alter uuid / digest, remove a tag / stamp / link, edit the document with and without recalculation, serialise+parse, sign again (any key), unsign; finally verification with the signer's key (75%) or another (a fifth of the time written as a JWK without the optional key id), through Envelope.Verify, VerifySignature, cli.Verify, the bulk verify action (in process) and - for a tenth of the cases and the enumerated tamper scenarios - the `gobl verify -k` executable, POST /verify and POST /bulk of a running `gobl serve`. Model: the header JSON recorded at each signing; expected = signed AND every signature made with the presented key AND the current header still contains each signed header (uuid, dig, stamps, links, tags, meta, notes); command-line paths additionally need the envelope to validate. Every path must return exactly the expected verdict; after an accepted verification a different key pair carrying the signer's key id must be refused by the same in-memory envelope. Non-trivial: the history ends signed.",
+		"Histories over every signable example invoice: 0-3 header decorations (links, tags, meta, notes), a signature by one of three keys, then 0-5 post-signing steps drawn from: add stamp / link (with or without title and MIME type) / tag (also the blank tag) / meta (also the empty value) / notes, change the title, description or MIME type of a link, remove a meta entry, extend the notes before or after their text, alter uuid / digest, remove a tag / stamp / link, edit the document with and without recalculation, serialise+parse, sign again (any key), unsign; finally verification with the signer's key (75%) or another (a fifth of the time written as a JWK without the optional key id), through Envelope.Verify, VerifySignature, cli.Verify, the bulk verify action (in process) and - for a tenth of the cases and the enumerated tamper scenarios - the `gobl verify -k` executable, POST /verify and POST /bulk of a running `gobl serve`. Model: the header JSON recorded at each signing; expected = signed AND every signature made with the presented key AND the current header still contains each signed header (uuid, dig, stamps, links, tags, meta, notes); command-line paths additionally need the envelope to validate. Every path must return exactly the expected verdict; after an accepted verification a different key pair carrying the signer's key id must be refused by the same in-memory envelope. Non-trivial: the history ends signed.",
 		"signatures are random (ECDSA); only verdicts are compared",
 		"whether the envelope validates is taken from Envelope.Validate (its rules are property C10)",
 	)
